@@ -3,7 +3,7 @@
    handle_trace_string_threadname on the model side), ChunksPairing.v (through the pairing machine), the regenerated
    rows for the path arguments of the syscalls.  Tie: correspondence of tools/props/C08.py. *)
 From Coq Require Import String ZArith NArith List Bool.
-From Kd Require Import theories.Base theories.Printers theories.Chunks theories.ChunksWindow theories.Pairing theories.ChunksPairing theories.ChunksPairingWindow
+From Kd Require Import theories.Base theories.Printers theories.Chunks theories.ChunksWindow theories.Pairing theories.ChunksPairing theories.ChunksPairingWindow theories.ChunksEndToEnd
   theories.DecoderDSL theories.DecoderDeps theories.DecoderProps gen.GenEnums gen.GenDecoders.
 Import ListNotations.
 Open Scope N_scope.
@@ -56,10 +56,20 @@ Proof. intros dom dec c D hr a. now apply (single_delivered_once dom dec c D). Q
        that occurred in between - the window 1b speaks about *)
 Theorem c08_window_with_unrelated : forall dom dec t c, dec c = true -> forall hr s items e,
   isS (ChunksPairingWindow.K t c) s = true -> forallb (ChunksPairingWindow.quiet t c) items = true -> isE (ChunksPairingWindow.K t c) e = true ->
-  exists w, spec_out dom dec (rev items ++ s :: hr) e = Some (w ++ [e])
-            /\ filter (ChunksPairingWindow.ownb t c) (w ++ [e]) = s :: filter (ChunksPairingWindow.ownb t c) items ++ [e]
-            /\ (forall x, In x w -> x = s \/ (In x items /\ p_tid x = t)).
+  exists r, spec_out dom dec (rev items ++ s :: hr) e = Some ((s :: r) ++ [e])
+            /\ filter (ChunksPairingWindow.ownb t c) ((s :: r) ++ [e]) = s :: filter (ChunksPairingWindow.ownb t c) items ++ [e]
+            /\ (forall x, In x (s :: r) -> x = s \/ (In x items /\ p_tid x = t)).
 Proof. intros dom dec t c D hr s items e. now apply delivered_window_own. Qed.
+
+(* 2c. pairing and reassembly together: if the records of the string's own key between START and END carry, in order, the
+       kernel's chunks of a text, then - after any history and with anything else in between - the END record delivers a window
+       on which the decoder reads exactly (debug id, string id, text) *)
+Theorem c08_string_end_to_end : forall dom dec t c, dec c = true -> forall (data : pev -> crec) hr s items e dbg sid text,
+  isS (ChunksPairingWindow.K t c) s = true -> forallb (ChunksPairingWindow.quiet t c) items = true -> isE (ChunksPairingWindow.K t c) e = true ->
+  dbg < 2 ^ 64 -> sid < 2 ^ 64 -> clean text ->
+  map data (s :: filter (ChunksPairingWindow.ownb t c) items ++ [e]) = enc_gstring dbg sid text ->
+  exists W, spec_out dom dec (rev items ++ s :: hr) e = Some W /\ gstring_w (map (to_w data) W) = (dbg, sid, text).
+Proof. intros dom dec t c D data hr s items e dbg sid text. now apply string_end_to_end. Qed.
 
 (* 3. every path-taking syscall shows the looked-up paths in lookup order: in every syscall row the path sources
       appear in non-decreasing lookup index (posix_spawn, which picks lookup 3 or lookup 0, is stated separately) *)
